@@ -421,6 +421,47 @@ TENSOR_UNARY = {
 }
 
 
+class UserFunction(ufl.Coefficient):
+    """What every downstream library does: a subclass of Coefficient (no new UFL type)."""
+
+
+class UserConstant(ufl.Constant):
+    """A downstream subclass of Constant."""
+
+
+@base(
+    "subclassed_terminals",
+    pat=(
+        "coefficient-classes",
+        [
+            Val("f*g"),
+            Val("f*G", cls="f*g"),  # G an instance of a user subclass of Coefficient: same compiled meaning as a plain one
+            Val("F*G", cls="f*g"),
+            Val("f*f"),
+            Val("G*G", cls="f*f"),
+            Val("f*g*c*d"),
+            Val("f*G*c*D", cls="f*g*c*d"),  # D an instance of a user subclass of Constant
+            Val("f*f*c*c"),
+            Val("f*g*c*c"),
+            Val("f*G*D*D", cls="f*g*c*c"),
+        ],
+    ),
+)
+def b_subclassed_terminals(c, P):
+    S = scalar_space(c)
+    m = c.mesh()
+    f, g = c.coef("f", S), c.coef("g", S)
+    F = c._get(("ucoef", "f2"), lambda: UserFunction(S, count=c.offset + SLOTS["f2"]))
+    G = c._get(("ucoef", "g2"), lambda: UserFunction(S, count=c.offset + SLOTS["g2"]))
+    cc, dd = c.const("c", m), c.const("d", m)
+    D = c._get(("uconst", "e"), lambda: UserConstant(m, count=c.offset + SLOTS["e"]))
+    env = {"f": f, "g": g, "F": F, "G": G, "c": cc, "d": dd, "D": D}
+    e = 1
+    for n in P["pat"].split("*"):
+        e = e * env[n]
+    return ufl.cosh(e + 7) * ufl.dx(m)  # wrapped so that no other base of the catalogue builds the same form
+
+
 @base("tensor_unary", op=("operator", vals(*TENSOR_UNARY)))
 def b_tensor_unary(c, P):
     T = tensor_space(c)
